@@ -255,6 +255,15 @@ func (cf *constFolder) stmt(s ast.Stmt) ast.Stmt {
 	case *ast.BlockStmt:
 		cf.list(&x.List)
 	case *ast.LabeledStmt:
+		// a labelled switch stays a switch (`break L` needs one to leave): only its clauses are looked into
+		if sw, isSw := x.Stmt.(*ast.SwitchStmt); isSw {
+			for _, c := range sw.Body.List {
+				if cc, isCC := c.(*ast.CaseClause); isCC {
+					cf.list(&cc.Body)
+				}
+			}
+			return s
+		}
 		x.Stmt = cf.stmt(x.Stmt)
 	case *ast.IfStmt:
 		if x.Init == nil {
@@ -319,6 +328,16 @@ func (cf *constFolder) switchStmt(x *ast.SwitchStmt) ast.Stmt {
 			return nil
 		}
 		tag = v
+	}
+	// `switch { default: … }` is the wrapper the expansion itself pastes bodies in: nothing to decide
+	decides := false
+	for _, c := range x.Body.List {
+		if cc, isCC := c.(*ast.CaseClause); isCC && cc.List != nil {
+			decides = true
+		}
+	}
+	if !decides {
+		return nil
 	}
 	var taken, deflt *ast.CaseClause
 	for _, c := range x.Body.List {
